@@ -58,6 +58,36 @@ CHECKS["C17"] = ("model_checking",
                  "Trusted: TLC, Json module, Registry.tla's widths, the harness' instantiation of the generic function per argument "
                  "type. Values are classes per window (not all 2^n values); 48/64/128-bit fields use boundary windows only.", "4/C17")
 
+CHECKS["C14"] = ("model_checking",
+                 "TLC exhaustive interleavings of Xid.tla (split read/write variant refuted); id sequences drawn by 2-64 goroutines under "
+                 "the Go race detector validated by TLC against the abstract Draw action (pairwise distinct)",
+                 "Xid.tla models the shared counter; TLC explores all interleavings of 3 drawers and proves Distinct for the atomic draw and "
+                 "refutes it for a split read/write (the invariant is not vacuous). On the code, 2-64 goroutines draw ids through all 14 "
+                 "constructors that embed a generated header, under the race detector; TLC judges the recorded per-goroutine sequences "
+                 "(pairwise distinct; race reports counted).",
+                 "Trusted: TLC, Json, the Go race detector; real schedules are stress-sampled, not enumerated. The cross-talk clause "
+                 "(concurrent build/encode/parse equals sequential) is decided on the shared scenario corpus once it exists; until then "
+                 "only the id and race clauses are exercised.", "4/C14")
+CHECKS["C10"] = ("model_checking",
+                 "TLC exhaustive model checking of Stream.tla (reader / parsers / consumer / failure interleavings); schedules simulated from "
+                 "the spec replayed on the real MessageStream through a scripted conn + gating parser; TLC trace validation of every "
+                 "recorded event log against StreamExt.tla",
+                 "Stream.tla mirrors util/stream.go one action per channel operation; TLC checks DeliveredIntact, NoDupNoInvent, NeverAhead, "
+                 "AllDeliveredAtQuiescence, ErrorAtMostOnce, ErrorIffFailed, PoolConservation and liveness on small pools for every chunking "
+                 "and failure point, and refutes the aliasing variant. The same spec simulated with the real constants produces coarse "
+                 "schedules that the rig imposes on the real stream; free-running and randomly scheduled executions run under -race. Every "
+                 "event log is validated step by step by TLC against StreamExt.tla (the property in event form).",
+                 "Trusted: TLC, Json, the rig (scripted conn, gating parser, consumer, mutex-ordered log). The rig controls goroutines only "
+                 "at Read/Parse/Recv. Refinement Stream => StreamExt is argued, not machine-checked.", "4/C10")
+CHECKS["C11"] = ("model_checking",
+                 "TLC exhaustive model checking of StreamOut.tla (two-writer variant refuted); concurrent producers against a recording "
+                 "connection under -race; TLC trace validation of the write log (re-framed byte stream) against StreamOutTrace.tla",
+                 "StreamOut.tla: producers, Outbound channel (cap 1), single writer; TLC checks once-only, submitted-before-written, "
+                 "per-producer order and eventual writing over all interleavings of 3 producers. On the code 1-32 producer goroutines submit "
+                 "xid-tagged real messages (8 B - 60 KB); the recorded Write calls are concatenated, re-framed by header length and validated "
+                 "by TLC event by event.",
+                 "Trusted: TLC, Json, the rig. Real schedules are stress-sampled (write delays widen the races).", "4/C11")
+
 NOT_YET = {
 }
 
